@@ -273,6 +273,46 @@ let ref_port (c : case) : string * bool =
       else None) (List.init 11 (fun i -> i + 1)) in
   (Printf.sprintf "res=%s md=%s outs=%s" (String.concat "," rs) (String.concat ";" md) (String.concat ";" outs), !dom)
 
+(* kind=timer: histories of CPU writes to TCR/TCSR/TCORA/TCORB/TCNT of 8-bit timer channel 0, instruction
+   charges (tick:n) and reads, against the tick-by-tick reference *)
+let ref_timer (c : case) : string * bool =
+  let z0 = z_of_int 0 in
+  let t = ref { tcnt = z0; tcsr = z0; tcora = z0; tcorb = z0; cmieb = false; cmiea = false; ovie = false;
+                cclr = z0; divisor = z0; phase = z0 } in
+  let tcr = ref 0 in
+  let dom = ref true in
+  let q = ref [] in
+  let rs = List.map (fun o ->
+      match o with
+      | OW8 (a, v) ->
+        (match int_of_z a with
+         | 0xffff80 -> tcr := int_of_z v; if (int_of_z v) land 7 > 3 then dom := false; t := write_tcr_ref !t v
+         | 0xffff82 -> t := { !t with tcsr = v }
+         | 0xffff84 -> t := { !t with tcora = v }
+         | 0xffff86 -> t := { !t with tcorb = v }
+         | 0xffff88 -> t := { !t with tcnt = v }
+         | _ -> dom := false);
+        "ok"
+      | OTick n ->
+        let ni = int_of_z n in
+        if ni < 1 || ni > 255 || not (side_ok !t) then dom := false;
+        let (t', rq) = states_ref (Z.to_nat n) !t in
+        t := t'; q := !q @ rq; "ok"
+      | OR8 a ->
+        (match int_of_z a with
+         | 0xffff80 -> fmt_res (ROkV (z_of_int !tcr))
+         | 0xffff82 -> fmt_res (ROkV !t.tcsr)
+         | 0xffff84 -> fmt_res (ROkV !t.tcora)
+         | 0xffff86 -> fmt_res (ROkV !t.tcorb)
+         | 0xffff88 -> fmt_res (ROkV !t.tcnt)
+         | _ -> dom := false; "na")
+      | _ -> dom := false; "na") c.ops in
+  let regs = [ (0xffff80, !tcr); (0xffff82, int_of_z !t.tcsr); (0xffff84, int_of_z !t.tcora);
+               (0xffff86, int_of_z !t.tcorb); (0xffff88, int_of_z !t.tcnt) ] in
+  let md = List.filter_map (fun (a, v) -> if v <> 0 then Some (Printf.sprintf "%x:%02x" a v) else None) regs in
+  (Printf.sprintf "res=%s md=%s q=%s" (String.concat "," rs) (String.concat ";" md)
+     (String.concat "," (List.map (fun v -> Printf.sprintf "%x" (int_of_z v)) !q)), !dom)
+
 (* kind=entry: ops = int:<v> [,step]: interrupt entry through vector v, optionally followed by the handler's RTE *)
 let ref_entry_case (c : case) : string * string =
   match c.ops with
@@ -311,6 +351,9 @@ let () =
           | "step" ->
             let (r, d) = ref_step_case c in
             Printf.fprintf oc "R id=%s %s\nD id=%s %s\n" c.id r c.id d
+          | "timer" ->
+            let (r, d) = ref_timer c in
+            Printf.fprintf oc "R id=%s %s\nD id=%s C17=%d\n" c.id r c.id (if d then 1 else 0)
           | "port" ->
             let (r, d) = ref_port c in
             Printf.fprintf oc "R id=%s %s\nD id=%s C16=%d\n" c.id r c.id (if d then 1 else 0)
